@@ -84,7 +84,14 @@ class EdgeOdometry(BaseEdge):
             The error for the edge
 
         """
-        return (self.estimate - (self.vertices[1].pose - self.vertices[0].pose)).to_compact()
+        err = self.estimate - (self.vertices[1].pose - self.vertices[0].pose)
+        compact = err.to_compact()
+
+        # `q` and `-q` are the same rotation, so use the representative of the error quaternion with a non-negative scalar part
+        if isinstance(err, PoseSE3) and err[6] < 0.0:
+            compact[3:] = -compact[3:]
+
+        return compact
 
     def calc_jacobians(self):
         r"""Calculate the Jacobian of the edge's error with respect to each constrained pose.
@@ -101,9 +108,18 @@ class EdgeOdometry(BaseEdge):
 
         """
         # fmt: off
-        return [np.dot(np.dot(self.estimate.jacobian_self_ominus_other_wrt_other_compact(self.vertices[1].pose - self.vertices[0].pose), self.vertices[1].pose.jacobian_self_ominus_other_wrt_other(self.vertices[0].pose)), self.vertices[0].pose.jacobian_boxplus()),
-                np.dot(np.dot(self.estimate.jacobian_self_ominus_other_wrt_other_compact(self.vertices[1].pose - self.vertices[0].pose), self.vertices[1].pose.jacobian_self_ominus_other_wrt_self(self.vertices[0].pose)), self.vertices[1].pose.jacobian_boxplus())]
+        jacobians = [np.dot(np.dot(self.estimate.jacobian_self_ominus_other_wrt_other_compact(self.vertices[1].pose - self.vertices[0].pose), self.vertices[1].pose.jacobian_self_ominus_other_wrt_other(self.vertices[0].pose)), self.vertices[0].pose.jacobian_boxplus()),
+                     np.dot(np.dot(self.estimate.jacobian_self_ominus_other_wrt_other_compact(self.vertices[1].pose - self.vertices[0].pose), self.vertices[1].pose.jacobian_self_ominus_other_wrt_self(self.vertices[0].pose)), self.vertices[1].pose.jacobian_boxplus())]
         # fmt: on
+
+        # The rotational part of the error changes sign when the error quaternion is replaced by its representative with a
+        # non-negative scalar part (see `calc_error`)
+        err = self.estimate - (self.vertices[1].pose - self.vertices[0].pose)
+        if isinstance(err, PoseSE3) and err[6] < 0.0:
+            for jacobian in jacobians:
+                jacobian[3:, :] = -jacobian[3:, :]
+
+        return jacobians
 
     def to_g2o(self):
         """Export the edge to the .g2o format.
